@@ -751,6 +751,7 @@ func clientConfigs(prop string) []sched.Config {
 func TestMC_C04(t *testing.T) {
 	cfgs, byName0 := lifeSchedConfigs("C04", lifecycleCheck)
 	cfgs = append(cfgs, clientConfigs("C04")...)
+	cfgs = append(cfgs, fatalAcceptConfigs("C04")...)
 	byName := func(name string) *sched.Config {
 		for i := range cfgs {
 			if cfgs[i].Name == name {
@@ -779,6 +780,7 @@ func TestMC_C07(t *testing.T) {
 		}})
 	}
 	cfgs = append(cfgs, clientConfigs("C07")...)
+	cfgs = append(cfgs, fatalAcceptConfigs("C07")...)
 	// failed engine start (resource exhaustion, failed registrations): nothing may leak or be closed twice
 	for _, loops := range []int{1, 2} {
 		loops := loops
